@@ -95,7 +95,7 @@ impl World {
         }
         // ---- C14: idle past the keep-alive without transmission
         if self.cfg.clock == Clock::Prompt && s.state == ST_CONNECTED {
-            let k = self.cfg.connack.server_keep_alive.or(self.cfg.keep_alive).unwrap_or(0) as u64;
+            let k = self.negotiated_keep_alive();
             if let Some(conn) = &self.conn {
                 if k > 0 && conn.connack_ok_processed && self.outbuf.is_empty() && !conn.write_stalled && now > conn.last_tx_at + k * 1000 {
                     let last = conn.last_tx_at;
@@ -150,6 +150,10 @@ impl World {
 
     pub(super) fn after_service_checks(&mut self, state_before: u8, error: Option<ErrKind>, produced: usize) {
         let now = self.now;
+        // a ping counts as sent from the service call that decided to send it (with a stalled write its bytes leave later)
+        if error.is_none() && self.eng.snapshot(now).ping_timeout_in_ms.is_some() {
+            if let Some(conn) = self.conn.as_mut() { if conn.ping_sent_at.is_none() { conn.ping_sent_at = Some(now); } }
+        }
         // ---- C07: establishment deadline
         if state_before == ST_PENDING_CONNACK {
             if let Some(conn) = &self.conn {
@@ -164,7 +168,7 @@ impl World {
         }
         // ---- C14: ping timeout exactly at min(ping timeout, K/2) with K/2 a real number of seconds
         if state_before == ST_CONNECTED {
-            let k = self.cfg.connack.server_keep_alive.or(self.cfg.keep_alive).unwrap_or(0) as u64;
+            let k = self.negotiated_keep_alive();
             if let Some(conn) = &self.conn {
                 if let Some(sent) = conn.ping_sent_at {
                     let limit = (self.cfg.ping_timeout.as_millis() as u64).min(k * 500);
@@ -375,7 +379,7 @@ impl World {
             if let Some(c) = &self.conn {
                 (c.index, &c.partial, c.emitted.min(1), &c.unseen, c.connect_emitted, c.connect_visible, c.connack_sent, c.connack_ok_processed).hash(h);
                 (c.session_present, c.disconnect_emitted, &c.pending, &c.out_alias, &c.in_alias, &c.owed_acks, &c.order, &c.outstanding).hash(h);
-                (c.ping_sent_at.map(|t| self.now - t), (self.now - c.last_tx_at).min(self.cfg.connack.server_keep_alive.or(self.cfg.keep_alive).unwrap_or(0) as u64 * 1000 + 1), c.inbound_sent, c.error_seen, c.last_delivered_sig, &c.residual, c.write_stalled, c.hostile_used, c.stream_bad, c.bytes_after_disconnect).hash(h);
+                (c.ping_sent_at.map(|t| self.now - t), (self.now - c.last_tx_at).min(self.negotiated_keep_alive() * 1000 + 1), c.inbound_sent, c.error_seen, c.last_delivered_sig, &c.residual, c.write_stalled, c.hostile_used, c.stream_bad, c.bytes_after_disconnect).hash(h);
             }
         };
         feed(&mut h1);
